@@ -363,7 +363,10 @@ size_t _mi_page_queue_append(mi_heap_t* heap, mi_page_queue_t* pq, mi_page_queue
   for (mi_page_t* page = append->first; page != NULL; page = page->next) {
     // inline `mi_page_set_heap` to avoid wrong assertion during absorption;
     // in this case it is ok to be delayed freeing since both "to" and "from" heap are still alive.
-    mi_atomic_store_release(&page->xheap, (uintptr_t)heap);
+    // note: use an exchange (a full barrier) and not a release store: the new heap must be visible to other threads
+    // _before_ we test for an in-flight delayed free below; a plain store can still be in flight when the flag is read
+    // (store-load reordering), and a thread that sets DELAYED_FREEING just after that read would still find the old heap.
+    mi_atomic_exchange_acq_rel(&page->xheap, (uintptr_t)heap);
     // set the flag to delayed free (not overriding NEVER_DELAYED_FREE) which has as a
     // side effect that it spins until any DELAYED_FREEING is finished. This ensures
     // that after appending only the new heap will be used for delayed free operations.
